@@ -801,7 +801,35 @@ def rule_j(ctx):
     ctx.floor(R, 1)
 
 
+def rule_k(ctx):
+    R = "C14.k"
+    ctx.rule(R, "prescribed values are replaced, never patched: in the kernel interpolation classes no element / slice store goes into the arrays "
+             "of prescribed data (self.values, self.fixed_values, self.variable_values, self.supports ...) -- such an array keeps the dtype "
+             "it was first given (integers `[0, 1]`), so float values stored into it later are truncated and the interpolant no longer "
+             "reproduces what was prescribed")
+    m = ctx.model
+    n = 0
+    DATA = ("values", "fixed_values", "variable_values", "supports", "fixed_supports", "variable_supports")
+    for k in m.mod(KINT).classes.values():
+        n += 1
+        bad = []
+        for f in k.methods.values():
+            if not f.params:
+                continue
+            me = f.params[0]
+            for st in ast.walk(f.node):
+                tgts = st.targets if isinstance(st, ast.Assign) else ([st.target] if isinstance(st, ast.AugAssign) else [])
+                for t in tgts:
+                    if isinstance(t, ast.Subscript) and isinstance(t.value, ast.Attribute) and isinstance(t.value.value, ast.Name) and t.value.value.id == me and t.value.attr in DATA:
+                        bad.append((f, st))
+        ctx.instance(R)
+        ctx.ob(R, k.qname, f"{k.name}: no element / slice store into the arrays of prescribed supports and values", not bad,
+               "; ".join(f"{f.short}: `{norm(st)[:70]}`" for f, st in bad[:2]) + " -- the stored array keeps its original dtype", bad[0][1] if bad else k.node, evidence=True)
+    ctx.floor(R, 2)
+
+
 def run(ctx):
+    rule_k(ctx)
     rule_j(ctx)
     rule_i(ctx)
     rule_a(ctx)
